@@ -185,3 +185,61 @@ func H_C18_helpers() {
 	}
 	vReach("end")
 }
+
+//verif:witness H_C18_nonascii end
+//verif:bound C18 all names containing well-formed multi-byte UTF-8 letters/digits (Latin-1, Cyrillic, Greek, Arabic-Indic and full-width digits, CJK) and lone high bytes at the start, middle and end of otherwise valid names: all rejected
+// H_C18_nonascii: the alphabet is ASCII lowercase letters, digits and underscore.
+func H_C18_nonascii() {
+	bad := [10]string{"_caf\u00e9", "stra\u00dfe_log", "_\u0431\u0438\u0437_def", "app_\u0661\u0662", "app_\uff11\uff12", "\u03b1\u03b2\u03b3", "app_\u4e2d", "ab\xff", "\xc3abc", "a\xa0b_c"}
+	s := bad[vChoose("name", 10)]
+	vAssert(!isValidTag(s), "non-ascii-name-rejected")
+	_, p := vTryRegister(s)
+	vAssert(p, "registering-a-non-ascii-name-panics")
+	_, ok := tagRegistry[s]
+	vAssert(!ok, "nothing-registered")
+	vReach("end")
+}
+
+//verif:witness H_C18_lifecycle end
+//verif:bound C18 all the list of all tags across configuration lifecycles: GetAllTags before / while live / after Destroy / after registering another name / after a second Refresh always equals the registered names (real Refresh and Destroy)
+// H_C18_lifecycle: GetAllTags never goes stale.
+func H_C18_lifecycle() {
+	vOpt("loop", 400)
+	savedHandles := loggerMap
+	loggerMap = map[string]*LoggerWrapper{}
+	defer func() {
+		Destroy()
+		global.init = false
+		loggerMap = savedHandles
+		delete(tagRegistry, "_c18_one")
+		delete(tagRegistry, "_c18_two")
+		TagAppDef.logger, TagBizDef.logger = nil, nil
+	}()
+	same := func(label string) {
+		all := GetAllTags()
+		vAssert(len(all) == len(tagRegistry), label)
+		for _, n := range all {
+			_, ok := tagRegistry[n]
+			vAssert(ok, label)
+		}
+	}
+	cfg := map[string]string{"appender.a1.type": "Rec", "logger.l1.type": "Logger", "logger.l1.tags": "_c18_one", "logger.l1.appenderRef.ref": "a1"}
+	RegisterTag("_c18_one")
+	if vChoose("early", 2) == 1 {
+		same("all-tags-before-refresh")
+	}
+	if err := Refresh(cfg); err != nil {
+		panic(err)
+	}
+	if vChoose("live", 2) == 1 {
+		same("all-tags-while-live")
+	}
+	Destroy()
+	RegisterTag("_c18_two")
+	same("all-tags-after-destroy-and-new-registration")
+	if err := Refresh(cfg); err != nil {
+		panic(err)
+	}
+	same("all-tags-after-second-refresh")
+	vReach("end")
+}
